@@ -13,6 +13,10 @@ import GormModel.Gen.MigrateJoinFacts
 import GormModel.Model.MigrateCols
 import GormModel.Lemmas.MigrateCols
 import GormModel.Gen.MigrateColsFacts
+import GormModel.Model.MigrateNames
+import GormModel.Lemmas.MigrateNames
+import GormModel.Lemmas.MigrateNames2
+import GormModel.Gen.MigrateNameFacts
 namespace Gorm.Mig
 
 /-- CORE LEMMA.  For EVERY field declaration, MigrateColumn on the column report of a faithful dialect issues nothing:
@@ -909,5 +913,117 @@ theorem C20_numeric_type_digit_group_partial (f : FieldDecl) (ci : ColumnInfo) (
 example : Undotted "main".toList ∧ Undotted "items".toList := by unfold Undotted; decide
 example : stmtTable ("main".toList ++ '.' :: "items".toList) = "items".toList := by decide
 example : resolveColumns shRaw ≠ columnFields shRaw := by decide
+
+/-! ### round 5 — WHO decides that a column is missing: the exact column list, and nothing between decision and ALTER -/
+
+/-- "only adds what is missing", column by column: AutoMigrate's column loop issues ADD COLUMN for a name IFF a non-ignored
+    field of that name is declared and the name is NOT in the exact list `ColumnTypes` reported.  (Whether the name occurs
+    elsewhere in the table's DDL text — inside a longer name, a check expression, a referenced column — is irrelevant.) -/
+theorem C20_column_added_iff_not_listed (t : Str) (cols : List (Str × ColumnInfo)) (fs : List FieldDecl) (n : Str) :
+    n ∈ addedNames (columnDDL t cols fs) ↔ ∃ f ∈ fs, f.dbName = n ∧ f.ignoreMigration = false ∧ n ∉ listed cols :=
+  mem_addedNames_columnDDL t cols fs n
+
+theorem addedNames_map_createConstraint (t : Str) (ns : List Str) : addedNames (ns.map (DDL.createConstraint t)) = [] := by
+  induction ns with
+  | nil => rfl
+  | cons n ns ih => simpa [addedNames] using ih
+
+theorem addedNames_map_createIndex (t : Str) (ns : List Str) : addedNames (ns.map (DDL.createIndex t)) = [] := by
+  induction ns with
+  | nil => rfl
+  | cons n ns ih => simpa [addedNames] using ih
+
+/-- one AutoMigrate iteration never issues ADD COLUMN for a column the table already lists -/
+theorem C20_only_missing_columns_added (m : ModelDecl) (c : Catalog) (n : Str) (hn : n ∈ addedNames (autoMigrateOne m c)) :
+    n ∉ tableCols c m.table := by
+  unfold autoMigrateOne at hn
+  unfold tableCols
+  cases hl : lookup m.table c with
+  | none => simp
+  | some ts =>
+    rw [hl] at hn
+    simp only [addedNames_append, addedNames_map_createConstraint, addedNames_map_createIndex, List.append_nil] at hn
+    obtain ⟨_, _, _, _, hnot⟩ := (mem_addedNames_columnDDL m.table ts.cols m.fields n).mp hn
+    exact hnot
+
+/-- "… the migrated table accepts records of the new model": after one AutoMigrate iteration EVERY non-ignored field of
+    the model has its column in the table (whatever the catalog looked like before) -/
+theorem C20_columns_complete_after_migrate (reflect : FieldDecl → ColumnInfo) (m : ModelDecl) (c : Catalog) (f : FieldDecl)
+    (hf : f ∈ m.fields) (hi : f.ignoreMigration = false) :
+    f.dbName ∈ tableCols (applyAll reflect (autoMigrateOne m c) c) m.table :=
+  columns_complete_after reflect m c f hf hi
+
+/-- … and every column the table had is still there -/
+theorem C20_columns_kept_after_migrate (reflect : FieldDecl → ColumnInfo) (m : ModelDecl) (c : Catalog) (n : Str)
+    (hn : n ∈ tableCols c m.table) : n ∈ tableCols (applyAll reflect (autoMigrateOne m c) c) m.table :=
+  columns_kept_after reflect m c n hn
+
+/-- a second opinion consulted before the ALTER is harmless exactly as far as it is SOUND for the exact list … -/
+theorem C20_sound_guard_harmless (has : Str → Bool) (t : Str) (cols : List (Str × ColumnInfo)) (fs : List FieldDecl)
+    (h : SoundFor has cols) : columnDDLGuarded has t cols fs = columnDDL t cols fs :=
+  columnDDLGuarded_of_sound has t cols fs h
+
+/-- … in general the guarded loop adds a column iff the list lacks it AND the second opinion does not claim it -/
+theorem C20_guarded_add_iff (has : Str → Bool) (t : Str) (cols : List (Str × ColumnInfo)) (fs : List FieldDecl) (n : Str) :
+    n ∈ addedNames (columnDDLGuarded has t cols fs) ↔
+      ∃ f ∈ fs, f.dbName = n ∧ f.ignoreMigration = false ∧ n ∉ listed cols ∧ has n = false :=
+  mem_addedNames_columnDDLGuarded has t cols fs n
+
+def tmInfo : ColumnInfo :=
+  { typeName := "real".toList, aliases := [], length := (0, false), decimal := (0, false), nullable := (true, true),
+    dflt := ([], false), comment := ([], false), unique := (false, true) }
+def tmSql : Str :=
+  "CREATE TABLE `products` (`id` integer PRIMARY KEY AUTOINCREMENT,`unit_price` real,`vendor_code` text,CONSTRAINT `fk_products_vendor` FOREIGN KEY (`vendor_code`) REFERENCES `vendors`(`code`),CONSTRAINT `chk_products_unit_price` CHECK (unit_price >= 0))".toList
+def tmCols : List (Str × ColumnInfo) := [("id".toList, tmInfo), ("unit_price".toList, tmInfo), ("vendor_code".toList, tmInfo)]
+def tmField (n : String) : FieldDecl := { shInt with dbName := n.toList }
+
+set_option maxRecDepth 40000 in
+/-- WHY nothing may overrule the exact list: the SQLite dialector's HasColumn is a text match on the CREATE TABLE
+    statement.  It claims `price` (inside `unit_price >= 0`), `code` (the referenced column of the foreign key) and `key`
+    (a keyword) although the exact list has none of them; the loop adds all three, a loop guarded by that predicate adds
+    none — the new model's records would be rejected.  (`note` occurs nowhere: both agree.) -/
+theorem C20_text_match_guard_counterexample :
+    textHasColumn tmSql "price".toList = true ∧ textHasColumn tmSql "code".toList = true ∧ textHasColumn tmSql "key".toList = true ∧
+    textHasColumn tmSql "note".toList = false ∧
+    "price".toList ∉ listed tmCols ∧ "code".toList ∉ listed tmCols ∧ "key".toList ∉ listed tmCols ∧
+    addedNames (columnDDL ['t'] tmCols [tmField "price", tmField "code", tmField "key", tmField "note"])
+      = ["price".toList, "code".toList, "key".toList, "note".toList] ∧
+    addedNames (columnDDLGuarded (textHasColumn tmSql) ['t'] tmCols [tmField "price", tmField "code", tmField "key", tmField "note"])
+      = ["note".toList] := by
+  decide
+
+example : SoundFor (fun n => decide (n ∈ listed tmCols)) tmCols := by intro n h; simpa using h
+example : ¬ SoundFor (textHasColumn tmSql) tmCols := by
+  intro h
+  exact C20_text_match_guard_counterexample.2.2.2.2.1 (h "price".toList C20_text_match_guard_counterexample.1)
+
+/-- TIE (regenerated facts).  (1) In package migrator only AutoMigrate asks the catalogue anything (HasTable, ColumnTypes
+    once per model BEFORE the column loop, HasConstraint twice, HasIndex): AddColumn, AlterColumn, MigrateColumn,
+    MigrateColumnUnique, CreateIndex, CreateConstraint consult no `Has…` predicate, so nothing can overrule the decision
+    between the loop and the statement.  (2) The decision is the exact comparison `columnType.Name() == dbName` and
+    `foundColumn == nil` guards AddColumn, its else-branch MigrateColumn.  (3) The bodies that issue the statements have
+    exactly these guards (AddColumn: schema / field look-up / IgnoreMigration) and statement texts. -/
+theorem C20_add_decision_sites :
+    Gen.migCatalogReads = [
+      ("AutoMigrate", ["queryTx.Migrator().HasTable(value)", "queryTx.Migrator().ColumnTypes(value)",
+        "queryTx.Migrator().HasConstraint(value, constraint.Name)", "queryTx.Migrator().HasConstraint(value, chk.Name)",
+        "queryTx.Migrator().HasIndex(value, idx.Name)"]),
+      ("ColumnTypes", ["rows.ColumnTypes()"])] ∧
+    Gen.migAddDecision = [
+      ("columnType.Name() == dbName", [], []),
+      ("foundColumn == nil", ["AddColumn(value, dbName)"], ["MigrateColumn(value, field, foundColumn)"]),
+      ("err = execTx.Migrator().AddColumn(value, dbName); err != nil", [], []),
+      ("err = execTx.Migrator().MigrateColumn(value, field, foundColumn); err != nil", [], [])] ∧
+    Gen.migFoundColumn = ["var gorm.ColumnType", "columnType"] ∧
+    Gen.migExecBodies = [
+      ("AddColumn", ["stmt.Schema == nil", "f == nil", "!f.IgnoreMigration"], ["\"ALTER TABLE ? ADD ? ?\""]),
+      ("AlterColumn", ["stmt.Schema != nil", "field := stmt.Schema.LookUpField(field); field != nil"],
+        ["\"ALTER TABLE ? ALTER COLUMN ? TYPE ?\""]),
+      ("MigrateColumnUnique", ["!ok || field.PrimaryKey", "unique && !field.Unique", "!unique && field.Unique"], []),
+      ("CreateConstraint", ["constraint != nil", "stmt.TableExpr != nil"], ["\"ALTER TABLE ? ADD \" + sql"]),
+      ("CreateIndex", ["stmt.Schema == nil", "idx := stmt.Schema.LookIndex(name); idx != nil", "idx.Class != \"\"",
+        "idx.Type != \"\"", "idx.Comment != \"\"", "idx.Option != \"\""], ["createIndexSQL"])] := by
+  decide
+
 
 end Gorm.Mig
